@@ -34,6 +34,10 @@ claimed = {
    text="one harness per operation with symbolic controller id and arguments; 'rejected' is observed as the transport call counter staying 0 and asserted equivalent to the documented rejection predicate (id 0; PutCard card/PIN/format rules incl. Wiegand-26 over all 2^32 numbers; SetListener over invalid/IPv4/16-byte address kinds; SetAddress over nil and length 0..16 IPs; SetDoorPasscodes doors; SetTimeProfile dates/segments)",
    note="bounds: format lists of length 0..2 (3 thorough) over all 256 CardFormat values; HH:mm fields -9..99; net.IP length 0..16; IPv6 zones not modelled. " + TRUST,
    ref="DESIGN.md section 6 C07"),
+ "C10": dict(
+   text="the real Listen / listen / datagram handler / dispatch goroutine are executed symbolically against a transport that feeds k datagrams of symbolic length 0..2048 and content from a goroutine through one reused receive buffer; goroutines run as coroutines under one canonical run-to-block schedule (unbuffered rendezvous, single consumer); asserted: connected callback once, exactly one callback per datagram in arrival order, an event callback iff the datagram is a well-formed event (64 bytes, 0x17/0x19, function 0x20, serial != 0, fields in domain) with every status field equal to an independent protocol-table decoding, delivered statuses distinct and unchanged by later datagrams, Listen returns nil, no goroutine left, no deadlock",
+   note="bounds: k <= 2 datagrams quick, 3 thorough; ONE schedule (run-to-block), not all interleavings - delivery order is schedule-independent by construction (argued, not explored); a datagram whose event timestamp is decimal but not a calendar date-time may be delivered with the zero timestamp or rejected (the codec's documented leniency); re-binding the listen address, the closed-flag race in ut0311.Listen and multi-sender arrival order are outside (OS / schedules); seam level (ut0311.Listen's socket loop not encoded). " + TRUST,
+   ref="DESIGN.md section 6 C10"),
  "C11": dict(
    text="GetDevices executed on k datagrams of symbolic length 0..2048 and content with a symbolic device table and broadcast port: the result is asserted to be, in arrival order, exactly one entry per well-formed get-device reply (each field from its protocol offset, address completed by the broadcast port, name from the table), nothing for the others, never an error",
    note="bounds: k <= 2 quick, <= 4 thorough; the collector goroutine of ut0311.Broadcast is not encoded (seam level). " + TRUST,
@@ -42,6 +46,14 @@ claimed = {
    text="bounded symbolic execution of bcd.Encode / bcd.Decode: every input byte is a solver variable, the property (exact digits, error iff non-digit / nibble > 9, both round trips) is asserted against an independent reference; unsat = holds for all 256^n inputs of each length n in the bound",
    note="bound: string length 0..8 / byte length 0..4 (quick), 0..16 / 0..8 (thorough); longer inputs outside the claim. " + TRUST,
    ref="DESIGN.md section 6 C12"),
+ "C13": dict(
+   text="ToDate, ParseDate, Date wire and JSON decoding, SystemDate and DateTime wire decoding and the encoders back are executed symbolically with the process zone a symbolic two-interval zone (offsets o1, o2 in +-14 h, transition anywhere within -14 h..+38 h of the date's 00:00 UTC), civil->instant resolution by Go's own time.Date algorithm transcribed into the model, all valid dates symbolic: the value must report and re-encode exactly the given year, month and day (date-times: exactly the transmitted fields whenever that civil time exists); a counterexample in the synthetic zone triggers a second run constrained to the real transitions of the installed tzdata and is replayed natively in that IANA zone before it is reported",
+   note="bounds: years 1..9999; zones with one transition near the date (transitions >= 48 h apart), jumps < 24 h (a zone that skips a whole calendar day is exempt by the property); the tzdata table keeps the earliest and latest occurrence of each (o1, o2, tau) transition shape 1800..2040; DateTime harness uses the contract of bcd.Decode proved by C12 instead of its body (compositional); the status system date/time recombination under Z2 is not yet covered. " + TRUST,
+   ref="DESIGN.md section 6 C13"),
+ "C15": dict(
+   text="the four address parsers, String and the format/parse round trip are executed symbolically (the repo's regular expressions are taken from the call sites and simulated as NFAs over symbolic bytes; netip's parsers and formatters are interpreted from their SSA) on strings assembled from an enumerated shape (digit counts of the four octets and the port) with symbolic digit characters: accepted iff the role's port rule holds, with exactly the octets and port of the text or the role's default; every string of symbolic bytes that contains no dotted quad is rejected by all four roles",
+   note="bounds: quick = 5 octet shapes x port of 0..5 digits per role and no-quad strings of length 0..9; thorough = all 81 x 6 shapes and no-quad strings up to 16 bytes; ports without leading zeros; strings with a dotted quad plus other text are not constrained by the property and not asserted on. " + TRUST,
+   ref="DESIGN.md section 6 C15"),
  "C16": dict(
    text="Date and HHmm Before/After/Equals executed symbolically on pairs and triples: trichotomy, mirror image, transitivity, irreflexivity and agreement with lexicographic (y,m,d)/(h,m) order are assertions decided by the solver over all valid dates 0001..9999 (any fixed zone offset) and all int-valued HH:mm fields",
    note="DateTime.Before and the SetTimeProfile segment check are covered by C07's SetTimeProfile harness (segment rule) and not yet for DateTime.Before (UnixMilli not modelled). " + TRUST,
